@@ -103,19 +103,132 @@ class Engine(StmtMixin):
             return (st, None)
         raise EngineError(f"generator protocol {c.gen}")
 
+    def new_generator_object(self, st: State, ctx: Ctx, fi: FuncInfo, c: Contract, args, kwargs, line: int) -> Ref:
+        frame = self.new_frame(st, None, "contract:" + fi.qualname)
+        self.bind_params(st, ctx, fi, frame, list(args), dict(kwargs), None)
+        sctx = self.spec_ctx(fi, frame, None, {})
+        for cl in c.requires:
+            self.oblige(st, self.eval_clause(cl, st, sctx), "call-pre", line, f"{fi.qualname}:{cl.name}", cl.tags)
+            st.assume(self.eval_clause(cl, st, sctx))
+        if c.gen == "producer":
+            T0 = z3.Empty(smt.BytesSeq)
+        else:
+            T0 = ops.as_bytes(st, self.eval1(ast.parse(c.ghost.get("T", "b''"), mode="eval").body, st, sctx))
+        return st.alloc(ObjMeta("generator", None, fi.qualname),
+                        {"$fi": fi, "$c": c, "$frame": frame, "T": T0, "started": False, "finished": False, "pos": z3.IntVal(0)})
+
+    # ------------------------------------------------------------------ generator objects driven by next()/send()
+    def gen_step(self, st: State, ctx: Ctx, g: Ref, sent: Any, first: bool, line: int):
+        """One resumption of a generator object: its contract instantiated at the extended ghost stream."""
+        gd = st.heap[g.oid]
+        fi, c, frame = gd["$fi"], gd["$c"], gd["$frame"]
+        if gd["finished"] is True:
+            return [(st, self.raise_py(st, StopIteration))]
+        if first and gd["started"]:
+            first = False
+            sent = None
+        if not first and not gd["started"]:
+            if sent is not None:
+                return [(st, self.raise_py(st, TypeError, "can't send non-None value to a just-started generator"))]
+            first = True
+        T = gd["T"]
+        if sent is not None:
+            sent = self.need(st, ctx, sent, line, "send-arg")
+        specials: dict[str, Any] = {}
+        if c.gen == "copy":
+            X = T if first or sent is None else z3.Concat(T, ops.as_bytes(st, sent))
+        elif c.gen == "buf":
+            buf = st.heap[frame.oid][c.gen_buffer]
+            base = buf.base if isinstance(buf, View) else buf
+            data = st.get(base, "data")
+            N = smt.L(data)
+            if first:
+                X = T
+            else:
+                n = ops.lift(sent)
+                pos = gd["pos"]
+                self.oblige(st, z3.And(n >= 1, n <= N - pos), "gen-send-pre", line, f"{fi.qualname}:1<=n<=room", c.tags)
+                st.assume(z3.And(n >= 1, n <= N - pos))
+                X = z3.Concat(T, z3.SubSeq(data, pos, n))
+        else:
+            raise EngineError(f"generator object of protocol {c.gen} cannot be stepped")
+        old = st.clone()
+        results = []
+        # (a) suspended again
+        s1 = st.clone()
+        sp = {"T": X}
+        ret: Any = None
+        if c.gen == "buf":
+            p = smt.fresh("yielded_pos", smt.I)
+            posn = smt.norm_index(p, N)
+            sp.update({"pos": posn, "yielded": p})
+            s1.assume(z3.And(posn >= 0, posn < N))
+            ret = p
+        sctx = self.spec_ctx(fi, frame, (old, frame), sp)
+        for pth in c.modifies:
+            if not (c.gen == "buf" and pth.strip() == c.gen_buffer):
+                self.havoc_path(s1, sctx, pth)
+        for cl in self.yield_clauses(c, 0):
+            s1.assume(self.eval_clause(cl, s1, sctx))
+        self.assume_some_yield(s1, c, sctx)
+        if self.feasible(s1):
+            d1 = s1.heap[g.oid]
+            d1["T"], d1["started"] = X, True
+            if c.gen == "buf":
+                d1["pos"] = posn
+            results.append((s1, ret))
+        # (b) raised
+        for cname, clauses in c.raises.items():
+            s2 = st.clone()
+            cls = self.class_by_name(cname)
+            exc = self.make_exc(s2, cls, ())
+            self.populate_exc(s2, exc, cname, c)
+            ectx = self.spec_ctx(fi, frame, (old, frame), {"T": X, "exc": exc})
+            for pth in c.modifies:
+                if not (c.gen == "buf" and pth.strip() == c.gen_buffer):
+                    self.havoc_path(s2, ectx, pth)
+            for cl in clauses:
+                s2.assume(self.eval_clause(cl, s2, ectx))
+            if self.feasible(s2):
+                d2 = s2.heap[g.oid]
+                d2["T"], d2["started"], d2["finished"] = X, True, True
+                results.append((s2, Raise(exc)))
+        # (c) returned
+        res = self.make_symbolic(st, c.result, "ret")
+        nctx = self.spec_ctx(fi, frame, (old, frame), {"T": X, "result": res})
+        for pth in c.modifies:
+            if not (c.gen == "buf" and pth.strip() == c.gen_buffer):
+                self.havoc_path(st, nctx, pth)
+        for cl in c.ensures:
+            st.assume(self.eval_clause(cl, st, nctx))
+        if self.feasible(st):
+            d3 = st.heap[g.oid]
+            d3["T"], d3["started"], d3["finished"] = X, True, True
+            results.append((st, Raise(self.make_exc(st, PyClass(StopIteration), (res,)))))
+        return results
+
+    def gen_close(self, st: State, g: Ref):
+        st.heap[g.oid]["finished"] = True
+        st.heap[g.oid]["started"] = True
+        return [(st, None)]
+
     def ev_YieldFrom(self, e, st, ctx):
         out = []
         for s2, g in self.eval_expr(e.value, st, ctx):
             if isinstance(g, Raise):
                 out.append((s2, g))
                 continue
-            if not (isinstance(g, tuple) and g and g[0] == "$gencall"):
-                raise EngineError(f"{ctx.func.key()}:{e.lineno}: yield from a value that is not a generator call under contract")
+            if not (isinstance(g, Ref) and META[g.oid].kind == "generator"):
+                raise EngineError(f"{ctx.func.key()}:{e.lineno}: yield from a value that is not a generator under contract")
             out.extend(self.yield_from(s2, ctx, g, e))
         return out
 
-    def yield_from(self, st: State, ctx: Ctx, g, e):
-        _, fi, c, args, kwargs, env = g
+    def yield_from(self, st: State, ctx: Ctx, g: Ref, e):
+        gd = st.heap[g.oid]
+        fi, c, frame = gd["$fi"], gd["$c"], gd["$frame"]
+        if gd["started"]:
+            raise EngineError(f"{ctx.func.key()}:{e.lineno}: yield from an already started generator")
+        gd["started"] = gd["finished"] = True
         line = e.lineno
         if not ctx.top or ctx.contract is None or ctx.contract.gen is None:
             raise EngineError(f"{ctx.func.key()}:{line}: yield from outside a generator under contract")
@@ -123,12 +236,7 @@ class Engine(StmtMixin):
         if mine.gen != c.gen:
             raise EngineError(f"{ctx.func.key()}:{line}: generator protocol mismatch {mine.gen} vs {c.gen}")
         k = ctx.yield_ord[id(e)]
-        frame = self.new_frame(st, None, "contract:" + fi.qualname)
-        self.bind_params(st, ctx, fi, frame, list(args), dict(kwargs), None)
         sctx = self.spec_ctx(fi, frame, None, {})
-        for cl in c.requires:
-            self.oblige(st, self.eval_clause(cl, st, sctx), "call-pre", line, f"{fi.qualname}:{cl.name}", cl.tags)
-            st.assume(self.eval_clause(cl, st, sctx))
         old = st.clone()
         myfr = st.heap[ctx.frame.oid]
         if c.gen == "producer":
@@ -353,7 +461,7 @@ class Engine(StmtMixin):
                 allowed.add((base.oid, self.mangled(octx, node.attr)))
         for oid, fields in old.heap.items():
             meta = META[oid]
-            if meta.kind in ("frame",) or oid in whole:
+            if meta.kind in ("frame", "generator") or oid in whole:
                 continue
             if oid not in st.heap:
                 continue
